@@ -270,6 +270,7 @@ extern const struct suite g_hash_suites[];
 extern const int g_n_hash_suites;
 extern const struct suite g_aead_suites[];
 extern const int g_n_aead_suites;
+int item_pick_ooo(struct rng *r, const struct suite **cs, const struct suite **hs, int *dir);
 const char *cipher_name(int c);
 const char *hash_name(int h);
 
@@ -304,6 +305,7 @@ void item_fill_job(const struct item *it, IMB_JOB *job);
 int item_check(struct item *it, const IMB_JOB *job, const char *prop, struct mmgr *mm,
                const char *ctx);
 const char *item_describe(const struct item *it); /* JSON object text */
+void item_mismatch_key(const struct item *it, const char *prop, const char *variant, int is_tag, char *key, size_t n);
 int item_is_parking(const struct item *it, int variant);
 const char *item_fault_suite(const struct item *it, const char *kind);
 extern int g_custom_trace[8];
